@@ -28,6 +28,11 @@ def known_functions():
         return set(json.load(f)['functions'])
 
 
+def known_constants():
+    with open(_TABLE) as f:
+        return set(json.load(f).get('constants', []))
+
+
 class Unsupported(Exception):
     pass
 
@@ -427,6 +432,154 @@ def propagate_condition_locals(func):
     return count
 
 
+# ----------------------------------------------------------------------------------------------- named constants
+def _display(e):
+    """an expression that only names constants: literals, displays of such, enum members / other globals, arithmetic on them"""
+    if isinstance(e, ast.Constant):
+        return True
+    if isinstance(e, (ast.Tuple, ast.List, ast.Set)):
+        return all(_display(x) for x in e.elts)
+    if isinstance(e, ast.Dict):
+        return all(k is not None and _display(k) and _display(v) for k, v in zip(e.keys, e.values))
+    if isinstance(e, ast.Name):
+        return True
+    if isinstance(e, ast.Attribute):
+        return _display(e.value)
+    if isinstance(e, ast.BinOp):
+        return _display(e.left) and _display(e.right)
+    if isinstance(e, ast.UnaryOp):
+        return _display(e.operand)
+    return False
+
+
+def inline_new_constants(prog, known):
+    """module-level and class-level names that are not in the reference tree and are bound once to a constant display are
+    replaced by that display wherever they are read (so `_HEADER_FORMAT = '>8s8s4B2L'` ... `unpack_from(_HEADER_FORMAT, data)`
+    is again `unpack_from('>8s8s4B2L', data)`).  Returns the list of inlined names."""
+    done = []
+    # ---- module level
+    for m in prog.modules.values():
+        cands = {}
+        for st in m.tree.body:
+            if isinstance(st, ast.Assign) and len(st.targets) == 1 and isinstance(st.targets[0], ast.Name) and _display(st.value):
+                name = st.targets[0].id
+                q = '%s.%s' % (m.name, name)
+                if q not in known and not name.startswith('__'):
+                    cands[name] = st
+        # assigned once only, never stored elsewhere
+        for name in list(cands):
+            stores = sum(1 for x in ast.walk(m.tree) if isinstance(x, ast.Name) and x.id == name and isinstance(x.ctx, (ast.Store, ast.Del)))
+            if stores != 1 or any(isinstance(x, ast.Global) and name in x.names for x in ast.walk(m.tree)):
+                del cands[name]
+        # constants may refer to each other: resolve in order of definition
+        for name, st in list(cands.items()):
+            st.value = _Subst({k: v.value for k, v in cands.items() if k != name}, {}).visit(st.value)
+        if not cands:
+            continue
+        exprs = {k: v.value for k, v in cands.items()}
+
+        class R(ast.NodeTransformer):
+            def visit_FunctionDef(s_, node):
+                # a parameter / local of the same name shadows the constant
+                shadow = _stored_names(node) | {a.arg for a in node.args.posonlyargs + node.args.args + node.args.kwonlyargs}
+                sub = {k: v for k, v in exprs.items() if k not in shadow}
+                if sub:
+                    for i, b in enumerate(node.body):
+                        node.body[i] = _Subst(sub, {}).visit(b)
+                return node
+
+            def visit_ClassDef(s_, node):
+                s_.generic_visit(node)
+                return node
+        for i, st in enumerate(m.tree.body):
+            if st in cands.values():
+                continue
+            if isinstance(st, (ast.FunctionDef, ast.ClassDef)):
+                R().visit(st)
+                if isinstance(st, ast.ClassDef):
+                    for j, b in enumerate(st.body):
+                        if not isinstance(b, (ast.FunctionDef, ast.ClassDef)):
+                            st.body[j] = _Subst(exprs, {}).visit(b)
+            else:
+                m.tree.body[i] = _Subst(exprs, {}).visit(st)
+        # other modules: `from m import NAME` / `m.NAME`
+        for om in prog.modules.values():
+            if om is m:
+                continue
+            alias = {}
+            for st in om.tree.body:
+                if isinstance(st, ast.ImportFrom) and st.module == m.name:
+                    for a in st.names:
+                        if a.name in exprs:
+                            alias[a.asname or a.name] = exprs[a.name]
+            mod_alias = [a.asname or a.name for st in om.tree.body if isinstance(st, ast.Import) for a in st.names if a.name == m.name]
+            if alias:
+                om.tree = _Subst(alias, {}).visit(om.tree)
+            if mod_alias:
+                class RA(ast.NodeTransformer):
+                    def visit_Attribute(s_, node):
+                        s_.generic_visit(node)
+                        if isinstance(node.value, ast.Name) and node.value.id in mod_alias and node.attr in exprs and isinstance(node.ctx, ast.Load):
+                            return ast.copy_location(copy.deepcopy(exprs[node.attr]), node)
+                        return node
+                om.tree = RA().visit(om.tree)
+        m.tree.body = [st for st in m.tree.body if st not in cands.values()]
+        done += ['%s.%s' % (m.name, k) for k in cands]
+    # ---- class level
+    for c in list(prog.classes.values()):
+        cands = {}
+        for st in c.node.body:
+            if isinstance(st, ast.Assign) and len(st.targets) == 1 and isinstance(st.targets[0], ast.Name) and _display(st.value):
+                name = st.targets[0].id
+                if '%s.%s' % (c.qual, name) not in known and not name.startswith('__') and name not in ('_fields_', '_pack_'):
+                    cands[name] = st
+        for name in list(cands):
+            others = [k for k in prog.classes.values() if k is not c and name in k.attrs and (c in k.mro() or k in c.mro())]
+            written = any(isinstance(x, ast.Attribute) and x.attr == name and isinstance(x.ctx, (ast.Store, ast.Del))
+                          for m in prog.modules.values() for x in ast.walk(m.tree))
+            if others or written:
+                del cands[name]
+        if not cands:
+            continue
+        exprs = {k: v.value for k, v in cands.items()}
+        cname = c.name
+
+        class RC(ast.NodeTransformer):
+            def visit_Attribute(s_, node):
+                s_.generic_visit(node)
+                if node.attr in exprs and isinstance(node.ctx, ast.Load):
+                    v = node.value
+                    if isinstance(v, ast.Name) and v.id in ('self', 'cls', cname):
+                        return ast.copy_location(copy.deepcopy(exprs[node.attr]), node)
+                    if isinstance(v, ast.Attribute) and v.attr == cname:
+                        return ast.copy_location(copy.deepcopy(exprs[node.attr]), node)
+                return node
+        # inside the class: self.N / cls.N / Class.N and bare N in the class body; elsewhere: Class.N
+        for j, b in enumerate(c.node.body):
+            if b in cands.values():
+                continue
+            if isinstance(b, (ast.FunctionDef, ast.ClassDef)):
+                RC().visit(b)
+            else:
+                c.node.body[j] = RC().visit(_Subst(exprs, {}).visit(b))
+
+        class RO(ast.NodeTransformer):
+            def visit_Attribute(s_, node):
+                s_.generic_visit(node)
+                if node.attr in exprs and isinstance(node.ctx, ast.Load) and (
+                        (isinstance(node.value, ast.Name) and node.value.id == cname) or
+                        (isinstance(node.value, ast.Attribute) and node.value.attr == cname)):
+                    return ast.copy_location(copy.deepcopy(exprs[node.attr]), node)
+                return node
+        for m in prog.modules.values():
+            RO().visit(m.tree)
+        c.node.body = [b for b in c.node.body if b not in cands.values()] or [ast.Pass()]
+        done += ['%s.%s' % (c.qual, k) for k in cands]
+    for m in prog.modules.values():
+        ast.fix_missing_locations(m.tree)
+    return done
+
+
 # ----------------------------------------------------------------------------------------------- the pass
 class Inliner:
     def __init__(self, prog, resolver_factory, known=None, max_rounds=6):
@@ -721,6 +874,9 @@ class Inliner:
     # ---- driver
     def run(self):
         prog = self.prog
+        self.report['inlined_constants'] = inline_new_constants(prog, known_constants())
+        if self.report['inlined_constants']:
+            prog.reindex()
         cands = self.candidates()
         self.report['condition_locals'] = {}
         if not cands:
